@@ -325,6 +325,15 @@ func runC20(c *Ctx) {
 				}
 			}
 		}
+		// a merge that appends a first part of the argument's values one by one and the rest at once, and counts them
+		// in a separate step, is decided on its structure instead (the enumerated paths do not pair the two loops)
+		if len(f.Params) == 2 {
+			if why := c20SplitMerge(f, valuesF, countF); why == "" {
+				nPairs++
+				c.R.okay(r3, shortFn(f)+"/split-append-total", shortFn(f), c.fpos(f), "the argument's values are appended exactly once each (values[0..k) one by one, then values[k:] at once) and Count grows by their number on every path that appends", "structural")
+				continue
+			}
+		}
 		for i, p := range ps {
 			single, bulk, inc1, incBulk, otherCount := 0, 0, 0, 0, 0
 			for _, e := range p.Effects {
@@ -588,4 +597,301 @@ func c20ReallocCopy(p *Path, st Effect, valuesF string) bool {
 		}
 	}
 	return copied
+}
+
+// c20SplitMerge decides the structure "append values[0..k) one by one, then values[k:] at once, then Count += n"
+// of a Merge(d, o), with values = o.Values read into one SSA value and n = len(values):
+//   - exactly one one-element append, inside a loop whose counter k = φ(0, k+1) indexes the element appended and
+//     advances only after that append; exactly one bulk append, of values[k:] with that same k, outside the loop, on
+//     every way from the loop to a return;
+//   - after the bulk append every way to a return passes through exactly one count step: Count += n outside loops, or
+//     a loop j = φ(0, j+1) left only by its test j < n whose body is Count += 1.
+//
+// It answers "" when all of that holds.
+func c20SplitMerge(f *ssa.Function, valuesF, countF string) string {
+	d, o := f.Params[0], f.Params[1]
+	fieldOf := func(v ssa.Value, base ssa.Value, name string) bool {
+		fa, ok := v.(*ssa.FieldAddr)
+		return ok && fa.X == base && fieldName(fa.X.Type(), fa.Field) == name
+	}
+	isVals := func(v ssa.Value) bool {
+		u, ok := v.(*ssa.UnOp)
+		return ok && u.Op == token.MUL && fieldOf(u.X, o, valuesF)
+	}
+	isN := func(v ssa.Value) bool {
+		for {
+			cv, ok := v.(*ssa.Convert)
+			if !ok {
+				break
+			}
+			v = cv.X
+		}
+		call, ok := v.(*ssa.Call)
+		if !ok {
+			return false
+		}
+		b, isB := call.Common().Value.(*ssa.Builtin)
+		return isB && b.Name() == "len" && isVals(call.Common().Args[0])
+	}
+	// all loads of o.Values must be one value (the slice header is read once)
+	var vals ssa.Value
+	for _, b := range f.Blocks {
+		for _, in := range b.Instrs {
+			if v, ok := in.(ssa.Value); ok && isVals(v) {
+				if vals != nil && vals != v {
+					return "the argument's values are read more than once"
+				}
+				vals = v
+			}
+		}
+	}
+	if vals == nil {
+		return "the argument's values are not read"
+	}
+	inCycle := func(b *ssa.BasicBlock) bool { // b can reach itself
+		seen := map[*ssa.BasicBlock]bool{}
+		var dfs func(x *ssa.BasicBlock) bool
+		dfs = func(x *ssa.BasicBlock) bool {
+			for _, sc := range x.Succs {
+				if sc == b {
+					return true
+				}
+				if !seen[sc] {
+					seen[sc] = true
+					if dfs(sc) {
+						return true
+					}
+				}
+			}
+			return false
+		}
+		return dfs(b)
+	}
+	reachesAvoiding := func(from *ssa.BasicBlock, avoid map[*ssa.BasicBlock]bool, goal func(*ssa.BasicBlock) bool) bool {
+		seen := map[*ssa.BasicBlock]bool{from: true}
+		work := []*ssa.BasicBlock{from}
+		for len(work) > 0 {
+			x := work[len(work)-1]
+			work = work[:len(work)-1]
+			for _, sc := range x.Succs {
+				if seen[sc] || avoid[sc] {
+					continue
+				}
+				if goal(sc) {
+					return true
+				}
+				seen[sc] = true
+				work = append(work, sc)
+			}
+		}
+		return false
+	}
+	isReturn := func(b *ssa.BasicBlock) bool {
+		_, ok := b.Instrs[len(b.Instrs)-1].(*ssa.Return)
+		return ok
+	}
+	counterPhi := func(v ssa.Value) (*ssa.Phi, *ssa.BinOp) {
+		ph, ok := v.(*ssa.Phi)
+		if !ok || len(ph.Edges) != 2 {
+			return nil, nil
+		}
+		var inc *ssa.BinOp
+		zero := false
+		for _, e := range ph.Edges {
+			if k, ok := e.(*ssa.Const); ok && k.Value != nil && k.Value.String() == "0" {
+				zero = true
+			}
+			if bo, ok := e.(*ssa.BinOp); ok && bo.Op == token.ADD && bo.X == ssa.Value(ph) {
+				if k, ok := bo.Y.(*ssa.Const); ok && k.Value != nil && k.Value.String() == "1" {
+					inc = bo
+				}
+			}
+		}
+		if !zero || inc == nil {
+			return nil, nil
+		}
+		return ph, inc
+	}
+	var singleBlk, bulkBlk *ssa.BasicBlock
+	var k *ssa.Phi
+	var kInc *ssa.BinOp
+	nSingle, nBulk := 0, 0
+	for _, b := range f.Blocks {
+		for _, in := range b.Instrs {
+			st, ok := in.(*ssa.Store)
+			if !ok || !fieldOf(st.Addr, d, valuesF) {
+				continue
+			}
+			call, ok := st.Val.(*ssa.Call)
+			if !ok {
+				return "the receiver's values are assigned something else than an append"
+			}
+			bi, isB := call.Common().Value.(*ssa.Builtin)
+			if !isB || bi.Name() != "append" || len(call.Common().Args) != 2 {
+				return "the receiver's values are assigned something else than an append"
+			}
+			sl, ok := call.Common().Args[1].(*ssa.Slice)
+			if !ok {
+				return "an append of something else than the argument's values"
+			}
+			switch x := sl.X.(type) {
+			case *ssa.Alloc: // a one-element varargs slice: its element is values[k]
+				var elem ssa.Value
+				for _, r := range *x.Referrers() {
+					if ia, ok := r.(*ssa.IndexAddr); ok {
+						for _, r2 := range *ia.Referrers() {
+							if st2, ok := r2.(*ssa.Store); ok && st2.Addr == ssa.Value(ia) {
+								elem = st2.Val
+							}
+						}
+					}
+				}
+				u, ok := elem.(*ssa.UnOp)
+				if !ok || u.Op != token.MUL {
+					return "a one-element append of something else than an element of the argument's values"
+				}
+				ia, ok := u.X.(*ssa.IndexAddr)
+				if !ok || ia.X != vals {
+					return "a one-element append of something else than an element of the argument's values"
+				}
+				ph, inc := counterPhi(ia.Index)
+				if ph == nil {
+					return "the element appended is not indexed by a counter φ(0, k+1)"
+				}
+				nSingle++
+				singleBlk, k, kInc = b, ph, inc
+			default:
+				if sl.X != vals || sl.High != nil || sl.Max != nil {
+					return "a bulk append of something else than a tail of the argument's values"
+				}
+				ph, _ := counterPhi(sl.Low)
+				if ph == nil {
+					return "the bulk append does not start at the counter"
+				}
+				nBulk++
+				bulkBlk = b
+				if k != nil && ph != k {
+					return "the bulk append starts at another counter than the one-by-one appends stopped at"
+				}
+				if k == nil {
+					k = ph
+				}
+			}
+		}
+	}
+	if nSingle != 1 || nBulk != 1 {
+		return fmt.Sprintf("%d one-element and %d bulk appends", nSingle, nBulk)
+	}
+	if sl := bulkBlk; inCycle(sl) {
+		return "the bulk append is inside a loop"
+	}
+	h := k.Block()
+	if !inCycle(singleBlk) || !h.Dominates(singleBlk) || !reachesAvoiding(singleBlk, nil, func(b *ssa.BasicBlock) bool { return b == h }) {
+		return "the one-element append is not in the counter's loop"
+	}
+	if !(singleBlk == kInc.Block() || singleBlk.Dominates(kInc.Block())) {
+		return "the counter advances without an append"
+	}
+	// one append per turn: every way from the append back to the loop header passes the increment's block, and the
+	// append's block is not inside a deeper loop that avoids the header
+	if reachesAvoiding(singleBlk, map[*ssa.BasicBlock]bool{h: true}, func(b *ssa.BasicBlock) bool { return b == singleBlk }) {
+		return "more than one append per turn of the counter"
+	}
+	if !h.Dominates(bulkBlk) {
+		return "the bulk append does not follow the loop"
+	}
+	if reachesAvoiding(h, map[*ssa.BasicBlock]bool{bulkBlk: true}, isReturn) {
+		return "a way from the one-by-one loop to a return misses the bulk append"
+	}
+	// count steps
+	sites := map[*ssa.BasicBlock]bool{}
+	for _, b := range f.Blocks {
+		for _, in := range b.Instrs {
+			st, ok := in.(*ssa.Store)
+			if !ok || !fieldOf(st.Addr, d, countF) {
+				continue
+			}
+			bo, ok := st.Val.(*ssa.BinOp)
+			if !ok || bo.Op != token.ADD {
+				return "Count is assigned something else than a sum"
+			}
+			ld, ok := bo.X.(*ssa.UnOp)
+			if !ok || ld.Op != token.MUL || !fieldOf(ld.X, d, countF) {
+				return "Count is not increased from its own value"
+			}
+			switch {
+			case isN(bo.Y):
+				if inCycle(b) {
+					return "Count += n inside a loop"
+				}
+				sites[b] = true
+			default:
+				kc, ok := bo.Y.(*ssa.Const)
+				if !ok || kc.Value == nil || kc.Value.String() != "1" || !inCycle(b) {
+					return "Count is increased by something else than 1 per value or their number"
+				}
+				// the loop: a header dominating b whose φ is a counter tested against n, the only exit
+				var hdr *ssa.BasicBlock
+				for x := b; x != nil; x = x.Idom() {
+					if iff, ok := x.Instrs[len(x.Instrs)-1].(*ssa.If); ok {
+						if cmp, ok := iff.Cond.(*ssa.BinOp); ok && cmp.Op == token.LSS && isN(cmp.Y) {
+							if ph, _ := counterPhi(cmp.X); ph != nil && ph.Block() == x && reachesAvoiding(b, nil, func(y *ssa.BasicBlock) bool { return y == x }) {
+								hdr = x
+								break
+							}
+						}
+					}
+				}
+				if hdr == nil {
+					return "Count += 1 outside a loop over the number of the argument's values"
+				}
+				// no other exit: from b every way to a return passes the header
+				if reachesAvoiding(b, map[*ssa.BasicBlock]bool{hdr: true}, isReturn) {
+					return "the counting loop has another exit than its test"
+				}
+				// one increment per turn
+				if reachesAvoiding(b, map[*ssa.BasicBlock]bool{hdr: true}, func(y *ssa.BasicBlock) bool { return y == b }) {
+					return "more than one increment per turn"
+				}
+				sites[hdr] = true
+				sites[b] = true
+			}
+		}
+	}
+	if len(sites) == 0 {
+		return "Count is not updated"
+	}
+	if reachesAvoiding(bulkBlk, sites, isReturn) {
+		return "a way from the bulk append to a return updates no Count"
+	}
+	if isReturn(bulkBlk) && !sites[bulkBlk] {
+		return "a way from the bulk append to a return updates no Count"
+	}
+	// … and count steps do not follow one another (the two forms are alternatives); a count step before the appends
+	// would have to dominate them — not accepted
+	for sb := range sites {
+		for _, in := range sb.Instrs {
+			if st, ok := in.(*ssa.Store); ok && fieldOf(st.Addr, d, countF) {
+				// from this store's block, another store site outside its own loop must not be reachable
+				for ob := range sites {
+					if ob == sb {
+						continue
+					}
+					hasStore := false
+					for _, in2 := range ob.Instrs {
+						if st2, ok := in2.(*ssa.Store); ok && fieldOf(st2.Addr, d, countF) {
+							hasStore = true
+						}
+					}
+					if hasStore && reachesAvoiding(sb, nil, func(y *ssa.BasicBlock) bool { return y == ob }) {
+						return "two count steps on one way"
+					}
+				}
+			}
+		}
+		if !bulkBlk.Dominates(sb) && sb != bulkBlk {
+			return "a count step that does not follow the appends"
+		}
+	}
+	return ""
 }
